@@ -311,6 +311,13 @@ def core_transformers(t, i):
         T.seq(T.strip('trailing-new-lines'), T.replace('$', '!'), T.char_case('upper')),
         T.seq(T.filter_line_nums([[2, None]]), T.filter_line_nums([[1]]), T.identity()),
         T.seq(T.identity(), T.seq(T.grep('a'), T.replace('a', 'aa')), T.strip('trailing-space')),
+        # nested compositions in which `identity` is first, last or everything of a group
+        T.seq(T.replace('a', 'b'), T.seq(T.char_case('upper'), T.identity())),
+        T.seq(T.seq(T.grep('a'), T.identity()), T.replace('a', 'x')),
+        T.seq(T.identity(), T.seq(T.identity(), T.strip()), T.identity()),
+        T.seq(T.seq(T.identity(), T.identity()), T.char_case('upper')),
+        T.seq(T.strip(), T.seq(T.seq(T.replace('b', 'c'), T.identity()), T.identity())),
+        T.seq(T.seq(T.identity(), T.replace('a', 'A')), T.seq(T.replace('A', 'b'), T.identity()), T.replace('b', 'B')),
     ]
     return ts
 
@@ -592,7 +599,7 @@ def gen_transformer(rng, text, d, chain_ok=True):
         ts = []
         cur = text
         for _ in range(rng.choice([2, 2, 3])):
-            t = gen_transformer(rng, cur, d - 1, chain_ok=False)
+            t = gen_transformer(rng, cur, d - 1, chain_ok=rng.random() < 0.4)
             ts.append(t)
             cur = T.apply_transformer(t, cur)
         return T.seq(*ts)
